@@ -1442,6 +1442,41 @@ Section World.
     map (fun fd => (fd_name fd, getf c false x (fd_name fd)))
         (filter (fun fd => alist_has (i_attrs x) (fd_name fd)) (c_fields c)).
 
+  (* ... followed by the `_none_fields` set (an empty one when the instance has none) *)
+  Definition nones_state (x : inst) : pyval := nones_val (nones_list x).
+  Definition full_state (c : classdef) (x : inst) : list (pystr * pyval) :=
+    state_of c x ++ [(n_none_fields, nones_state x)].
+
+  Lemma state_of_keys_fields c x k : In k (map fst (state_of c x)) -> is_field c k = true.
+  Proof.
+    unfold state_of. rewrite map_map. cbn [fst]. intro H. apply in_map_iff in H. destruct H as [fd [<- Hf]].
+    apply filter_In in Hf. apply is_field_in. exact (proj1 Hf).
+  Qed.
+
+  Lemma state_of_no_internal c x k : c_ok c = true -> is_internal k = true -> ~ In k (map fst (state_of c x)).
+  Proof.
+    intros CO I H. apply state_of_keys_fields in H. rewrite (field_not_internal c k CO H) in I. discriminate.
+  Qed.
+
+  Lemma state_of_nodup c x : fields_nodup c = true -> NoDup (map fst (state_of c x)).
+  Proof.
+    intro FN. unfold state_of. rewrite map_map. cbn [fst].
+    assert (ND : NoDup (map fd_name (c_fields c))) by (apply nodup_by_NoDup; exact FN).
+    clear -ND. induction (c_fields c) as [|fd l IH]; [constructor|]. cbn [filter map] in *. inversion ND as [|? ? Hn ND']; subst.
+    destruct (alist_has (i_attrs x) (fd_name fd)); [|apply IH; exact ND'].
+    cbn [map]. constructor; [|apply IH; exact ND'].
+    intro Hin. apply Hn. apply in_map_iff in Hin. destruct Hin as [fd' [E Hf]]. apply filter_In in Hf.
+    rewrite <- E. apply in_map. exact (proj1 Hf).
+  Qed.
+
+  Lemma full_state_nodup c x : c_ok c = true -> fields_nodup c = true -> NoDup (map fst (full_state c x)).
+  Proof.
+    intros CO FN. unfold full_state. rewrite map_app. apply NoDup_app_disj.
+    - apply state_of_nodup. exact FN.
+    - cbn [map fst]. constructor; [intros [] | constructor].
+    - intros k Hk [<-|[]]. exact (state_of_no_internal c x n_none_fields CO eq_refl Hk).
+  Qed.
+
   Lemma comp_list_ok {A B} (cnd : A -> res bool) (g : A -> res B) (p : A -> bool) (k : A -> B) l :
     (forall x, In x l -> cnd x = Ok (p x)) -> (forall x, In x l -> p x = true -> g x = Ok (k x)) ->
     PyOpsVersioned.comp_list cnd g l = Ok (map k (filter p l)).
@@ -1462,7 +1497,7 @@ Section World.
     c_ok c = true -> fields_nodup c = true -> public_attrs x = true ->
     (forall n v, is_field c n = true ->
                  w_mcall W (fld_ref n) (s2p "__serialize__") [v] = Src_Field_serialize W (fld_ref n) v) ->
-    Src_Structure_getstate W (inst_obj x t) = Ok (PDict (skeys (state_of c x))).
+    Src_Structure_getstate W (inst_obj x t) = Ok (PDict (skeys (full_state c x))).
   Proof.
     intros GA V CO FN PA SER. unfold Src_Structure_getstate. unfold inst_obj at 1.
     cbn [inst_class PyOpsFields.fld_class_of bind]. rewrite GA. cbn [bind].
@@ -1489,14 +1524,16 @@ Section World.
                     (filter (fun e => match e with PTuple [PStr n; _] => alist_has (i_attrs x) n | _ => false end)
                             (map entry (fields_alist c))) = skeys (state_of c x)).
     { rewrite filter_map_comm. unfold fields_alist. rewrite filter_map_comm. unfold state_of, skeys. rewrite !map_map. reflexivity. }
-    rewrite E. rewrite py_dict_of_skeys; [reflexivity|].
-    unfold state_of. rewrite map_map. cbn [fst].
-    assert (ND : NoDup (map fd_name (c_fields c))) by (apply nodup_by_NoDup; exact FN).
-    clear -ND. induction (c_fields c) as [|fd l IH]; [constructor|]. cbn [filter map] in *. inversion ND as [|? ? Hn ND']; subst.
-    destruct (alist_has (i_attrs x) (fd_name fd)); [|apply IH; exact ND'].
-    cbn [map]. constructor; [|apply IH; exact ND'].
-    intro Hin. apply Hn. apply in_map_iff in Hin. destruct Hin as [fd' [E Hf]]. apply filter_In in Hf.
-    rewrite <- E. apply in_map. exact (proj1 Hf).
+    rewrite E. rewrite (py_dict_of_skeys _ (state_of_nodup c x FN)). cbn [bind].
+    (* state["_none_fields"] = self.__dict__.get("_none_fields", set()) *)
+    unfold inst_obj. cbn [inst_dict bind]. rewrite dict_of_attrs_skeys.
+    unfold py_dict_get, PyOpsVersioned.py_dict_get. cbn [py_hashable']. rewrite dict_get_skeys.
+    fold n_none_fields. rewrite (dict_get_nones x t PA). cbn [bind].
+    assert (NV : match match i_nones x with Some l => Some (nones_val l) | None => None end with
+                 | Some v => v | None => PSet false [] end = nones_state x).
+    { unfold nones_state, nones_list. destruct (i_nones x); reflexivity. }
+    rewrite NV. unfold py_dict_setitem. cbn [py_hashable']. rewrite dict_set_skeys.
+    rewrite (alist_set_fresh _ _ _ (state_of_no_internal c x n_none_fields CO eq_refl)). reflexivity.
   Qed.
 
   Theorem Src_getstate_is_state c undef x t bases :
@@ -1504,7 +1541,7 @@ Section World.
     c_ok c = true -> fields_nodup c = true -> public_attrs x = true ->
     (forall n v, is_field c n = true ->
                  w_mcall W (fld_ref n) (s2p "__serialize__") [v] = Src_Field_serialize W (fld_ref n) v) ->
-    Src_Structure_getstate W (inst_obj x t) = Ok (PDict (skeys (state_of c x))).
+    Src_Structure_getstate W (inst_obj x t) = Ok (PDict (skeys (full_state c x))).
   Proof.
     intros V MV CO FN PA SER.
     exact (Src_getstate_of_fields c undef x t (Src_get_all_fields_is_fields c _ bases MV FN) V CO FN PA SER).
@@ -1571,7 +1608,7 @@ Section World.
     c_ok c = true -> fields_nodup c = true -> public_attrs x = true ->
     (forall n v, is_field c n = true ->
                  w_mcall W (fld_ref n) (s2p "__serialize__") [v] = Src_Field_serialize W (fld_ref n) v) ->
-    Src_Structure_getstate W (inst_obj x t) = Ok (PDict (skeys (state_of c x))).
+    Src_Structure_getstate W (inst_obj x t) = Ok (PDict (skeys (full_state c x))).
   Proof.
     intros V ML E CO FN PA SER. apply (Src_getstate_of_fields c undef x t); try assumption.
     rewrite (Src_get_all_fields_is_merge _ levels ML), E, field_by_name_skeys. reflexivity.
@@ -1594,6 +1631,64 @@ Section World.
         * apply pystr_eqb_spec in E. subst k'. destruct (find_field (c_fields c) k); [cbn [alist_get]; rewrite pystr_eqb_refl; reflexivity|].
           rewrite <- IH. reflexivity.
         * destruct (find_field (c_fields c) k') ; [cbn [alist_get]; rewrite E|]; exact IH.
+  Qed.
+
+  (* ---------------------------------------------------------------- Structure.__setstate__, unpickling *)
+
+  (* __setstate__ on the object cls.__new__(cls) has just made, with the state __getstate__ returned: the
+     entries of the state, then `_instantiated` = True (the `_none_fields` default is not needed: the state
+     carries the set) *)
+  Theorem Src_setstate_of_state c x cls :
+    c_ok c = true -> fields_nodup c = true ->
+    Src_Structure_setstate W (PStruct cls []) (PDict (skeys (full_state c x))) =
+    Ok (PStruct cls (full_state c x ++ [(n_instantiated, PBool true)])).
+  Proof.
+    intros CO FN. unfold Src_Structure_setstate. cbn [inst_dict_update]. rewrite attrs_update_skeys.
+    rewrite fold_alist_set_fresh by (cbn [app]; apply full_state_nodup; assumption). cbn [bind app].
+    unfold inst_dict_setdefault.
+    assert (HN : alist_has (full_state c x) n_none_fields = true).
+    { unfold alist_has, full_state. rewrite alist_get_app.
+      rewrite (alist_get_notin _ _ (state_of_no_internal c x n_none_fields CO eq_refl)). reflexivity. }
+    fold n_none_fields. rewrite HN. cbn [bind]. unfold inst_dict_setitem. fold n_instantiated.
+    rewrite alist_set_fresh; [reflexivity|].
+    unfold full_state. rewrite map_app. intro H. apply in_app_or in H. destruct H as [H|[H|[]]].
+    - exact (state_of_no_internal c x n_instantiated CO eq_refl H).
+    - discriminate H.
+  Qed.
+
+  (* any state, as long as its names are distinct: the entries of the state, `_none_fields` defaulting to an
+     empty set, `_instantiated` = True whatever the state said *)
+  Theorem Src_setstate_any cls st :
+    NoDup (map fst st) ->
+    Src_Structure_setstate W (PStruct cls []) (PDict (skeys st)) =
+    Ok (PStruct cls (alist_set (if alist_has st n_none_fields then st else alist_set st n_none_fields (PSet false []))
+                               n_instantiated (PBool true))).
+  Proof.
+    intro ND. unfold Src_Structure_setstate. cbn [inst_dict_update]. rewrite attrs_update_skeys.
+    rewrite fold_alist_set_fresh by exact ND. cbn [bind app]. unfold inst_dict_setdefault. fold n_none_fields.
+    destruct (alist_has st n_none_fields); cbn [bind]; unfold inst_dict_setitem; fold n_instantiated; reflexivity.
+  Qed.
+
+  (* pickle.loads(pickle.dumps(o)) for an instance o of a Structure class, as object.__reduce_ex__(2) and
+     copyreg arrange it: state = o.__getstate__(); r = cls.__new__(cls); r.__setstate__(<a copy of state>) *)
+  Definition unpickle (o : pyval) : res pyval :=
+    st <- Src_Structure_getstate W o ;; cls <- inst_class o ;; r <- obj_new cls ;; Src_Structure_setstate W r st.
+
+  Theorem Src_unpickle_is_pickle_rt c undef x t bases :
+    class_view h c undef (i_cls x) -> mro_view c (i_cls x) bases ->
+    c_ok c = true -> fields_nodup c = true -> public_attrs x = true ->
+    (forall n v, is_field c n = true ->
+                 w_mcall W (fld_ref n) (s2p "__serialize__") [v] = Src_Field_serialize W (fld_ref n) v) ->
+    unpickle (inst_obj x t) = Ok (PStruct (i_cls x) (state_of c x ++ internals (pickle_rt c x) None)) /\
+    (forall k, alist_get (state_of c x ++ internals (pickle_rt c x) None) k =
+               alist_get (inst_dict_of (pickle_rt c x) None) k).
+  Proof.
+    intros V MV CO FN PA SER. split.
+    - unfold unpickle. rewrite (Src_getstate_is_state c undef x t bases V MV CO FN PA SER). cbn [bind].
+      unfold inst_obj at 1. cbn [inst_class PyOpsFields.fld_class_of bind]. unfold obj_new, ref. rewrite ref_tag_refl. cbn [bind].
+      rewrite (Src_setstate_of_state c x (i_cls x) CO FN). unfold full_state, internals, pickle_rt, nones_state.
+      cbn [i_nones i_live]. rewrite <- app_assoc. reflexivity.
+    - intro k. unfold inst_dict_of. rewrite !alist_get_app, state_lookup. reflexivity.
   Qed.
 End World.
 
@@ -1717,7 +1812,7 @@ Theorem C11_src_getstate :
                  mcall (fld_ref n) (s2p "__serialize__") [v] =
                  Src_Field_serialize (the_world num_str str_repr enum_vrepr str_hash mcall h) (fld_ref n) v) ->
     (Src_Structure_getstate (the_world num_str str_repr enum_vrepr str_hash mcall h) (inst_obj x t) =
-     Ok (PDict (skeys (state_of c x)))) /\
+     Ok (PDict (skeys (full_state c x)))) /\
     (forall k, alist_get (state_of c x) k = alist_get (i_attrs (pickle_rt c x)) k).
 Proof.
   intros c undef ns sr ev sh mcall h x t bases V MV CO FN PA SER. split.
@@ -1737,10 +1832,39 @@ Theorem C11_src_getstate_mro :
                  mcall (fld_ref n) (s2p "__serialize__") [v] =
                  Src_Field_serialize (the_world num_str str_repr enum_vrepr str_hash mcall h) (fld_ref n) v) ->
     Src_Structure_getstate (the_world num_str str_repr enum_vrepr str_hash mcall h) (inst_obj x t) =
-    Ok (PDict (skeys (state_of c x))).
+    Ok (PDict (skeys (full_state c x))).
 Proof.
   intros c undef ns sr ev sh mcall h x t levels.
   exact (Src_getstate_is_state_mro (the_world ns sr ev sh mcall h) c undef x t levels).
+Qed.
+
+(* Structure.__setstate__ of the source, on a new object and ANY state with distinct names: the entries of the
+   state, `_none_fields` defaulting to an empty set, `_instantiated` = True *)
+Theorem C11_src_setstate :
+  forall num_str str_repr enum_vrepr str_hash mcall h cls st,
+    NoDup (map fst st) ->
+    Src_Structure_setstate (the_world num_str str_repr enum_vrepr str_hash mcall h) (PStruct cls []) (PDict (skeys st)) =
+    Ok (PStruct cls (alist_set (if alist_has st n_none_fields then st else alist_set st n_none_fields (PSet false []))
+                               n_instantiated (PBool true))).
+Proof. intros ns sr ev sh mcall h. exact (Src_setstate_any (the_world ns sr ev sh mcall h)). Qed.
+
+(* the pickle round trip through the source's __getstate__ and __setstate__ yields the instance [pickle_rt c x] of
+   the model, live again and with its `_none_fields`: the same class, the same lookups in __dict__ *)
+Theorem C11_src_unpickle :
+  forall c undef num_str str_repr enum_vrepr str_hash mcall h x t bases,
+    class_view h c undef (i_cls x) ->
+    mro_view (the_world num_str str_repr enum_vrepr str_hash mcall h) c (i_cls x) bases ->
+    c_ok c = true -> fields_nodup c = true -> public_attrs x = true ->
+    (forall n v, is_field c n = true ->
+                 mcall (fld_ref n) (s2p "__serialize__") [v] =
+                 Src_Field_serialize (the_world num_str str_repr enum_vrepr str_hash mcall h) (fld_ref n) v) ->
+    unpickle (the_world num_str str_repr enum_vrepr str_hash mcall h) (inst_obj x t) =
+      Ok (PStruct (i_cls x) (state_of c x ++ internals (pickle_rt c x) None)) /\
+    (forall k, alist_get (state_of c x ++ internals (pickle_rt c x) None) k =
+               alist_get (inst_dict_of (pickle_rt c x) None) k).
+Proof.
+  intros c undef ns sr ev sh mcall h x t bases.
+  exact (Src_unpickle_is_pickle_rt (the_world ns sr ev sh mcall h) c undef x t bases).
 Qed.
 
 (* ------------------------------------------------------------------ the hypotheses are satisfiable *)
@@ -1867,7 +1991,15 @@ Proof. split; vm_compute; reflexivity. Qed.
 
 Example ex_getstate_runs :
   Src_Structure_getstate ex_world (inst_obj ex_a None) =
-  Ok (PDict [(PStr (s2p "n"), PNum (NInt 1)); (PStr (s2p "s"), PStr (s2p "q"))]).
+  Ok (PDict [(PStr (s2p "n"), PNum (NInt 1)); (PStr (s2p "s"), PStr (s2p "q"));
+             (PStr (s2p "_none_fields"), PSet false [PStr (s2p "m")])]).
+Proof. vm_compute. reflexivity. Qed.
+
+(* the pickle round trip runs: the undeclared `extra` is gone, the None-marked name and `_instantiated` are back *)
+Example ex_unpickle_runs :
+  unpickle ex_world (inst_obj ex_a None) =
+  Ok (PStruct (s2p "A") [(s2p "n", PNum (NInt 1)); (s2p "s", PStr (s2p "q"));
+                         (s2p "_none_fields", PSet false [PStr (s2p "m")]); (s2p "_instantiated", PBool true)]).
 Proof. vm_compute. reflexivity. Qed.
 
 (* inherited fields: class B2(A2), A2 declares n, B2 declares s *)
